@@ -49,14 +49,14 @@ Definition ucrednet_nobody : N := 4294967295.     (* uint32((1 << 32) - 1) *)
    a negative pid prints with a minus sign, which the regexp rejects (see print_ucred's domain in the theorems) *)
 Record ucred : Type := mkUcred { u_pid : N; u_uid : N; u_socket : bytes }.
 
-(* (*ucrednet).String for a non-nil receiver: fmt.Sprintf("pid=%d;uid=%d;socket=%s;", ...) *)
+(* ucrednet.String for a non-nil receiver: Sprintf of pid=%d;uid=%d;socket=%s; *)
 Definition print_ucred (u : ucred) : bytes :=
   bs "pid=" ++ dec (u_pid u) ++ bs ";uid=" ++ dec (u_uid u) ++ bs ";socket=" ++ u_socket u ++ [semi].
 
-(* (*ucrednet).String for the nil receiver *)
+(* ucrednet.String for the nil receiver *)
 Definition print_nil_ucred : bytes := bs "pid=;uid=;socket=;".
 
-(* raddrRegexp = ^pid=(\d+);uid=(\d+);socket=([^;]*);(iface=([^;]*);)?$   -- the submatches.
+(* raddrRegexp = ^pid=(\d+);uid=(\d+);socket=(NOSEMI);(iface=(NOSEMI);)?$  with NOSEMI = any run of bytes other than ; -- the submatches.
    The expression is deterministic (each group is delimited by a byte it cannot contain), so leftmost-first matching is
    this single left-to-right pass. ra_iface is group 5 when group 4 took part in the match. *)
 Record raddr : Type := mkRaddr { ra_pid : bytes; ra_uid : bytes; ra_socket : bytes; ra_iface : option bytes }.
@@ -423,6 +423,38 @@ Definition allowed_b (p : access) (x : ctx) (creds : option ucred) : bool :=
     end
   end.
 
+(* ------------------------------------------------------------------------------------------------ driver vocabulary
+   Shared literals that keep the generated case terms small. The Go driver (c26ConnMode / c26PkMode) has the same
+   tables; if the two diverge, model and implementation are given different contexts and the correspondence reports it. *)
+Definition drv_snap := bs "some-snap".
+Definition drv_other := bs "other-snap".
+Definition if_refresh_control := bs "snap-refresh-control".
+Definition if_network := bs "network".
+Definition drv_conns (k : nat) : list conn :=
+  match k with
+  | 0%nat => []
+  | 1%nat => [mkConn drv_snap if_refresh_observe false false; mkConn drv_snap if_themes false false;
+              mkConn drv_snap if_prompting false false]
+  | 2%nat => [mkConn drv_snap if_refresh_observe true false; mkConn drv_snap if_themes false true;
+              mkConn drv_other if_prompting false false; mkConn drv_other if_refresh_observe false false;
+              mkConn drv_snap if_network false false]
+  | 3%nat => [mkConn drv_snap if_refresh_observe false false; mkConn drv_snap if_refresh_observe true false]
+  | 4%nat => [mkConn drv_snap if_themes false false; mkConn drv_other if_refresh_observe false false]
+  | 5%nat => [mkConn drv_snap if_prompting false false; mkConn drv_snap if_refresh_control false false]
+  | _ => [mkConn drv_snap if_refresh_control false false; mkConn drv_snap if_network false false]
+  end.
+Definition drv_pk (k : nat) : bytes -> polkit_answer :=
+  match k with
+  | 0%nat => pk_table [] PkNo
+  | 1%nat => pk_table [] PkYes
+  | 2%nat => pk_table [] PkDismissed
+  | 3%nat => pk_table [] PkError
+  | 4%nat => pk_table [(pk_login, PkYes)] PkNo
+  | 5%nat => pk_table [(pk_manage, PkYes)] PkNo
+  | 6%nat => pk_table [(pk_manage_ifaces, PkYes); (pk_manage_conf, PkYes)] PkNo
+  | _ => pk_table [(pk_manage, PkNo)] PkYes
+  end.
+
 (* ------------------------------------------------------------------------------------------------ correspondence *)
 
 (* what the driver observed, projected: did the stub handler run / 405 / denied (401 or 403) / 500 / panic *)
@@ -452,6 +484,7 @@ Inductive case : Type :=
 | CServe (idx : nat) (path : bytes) (m : meth)   (* index into the runtime `api` slice, its Path/PathPrefix, verb *)
          (x : ctx)
          (creds : option ucred)                   (* what the driver meant to put on the wire (monitor only) *)
+         (pre : list bytes)                       (* interfaces the driver already wrote into the forged address (monitor only) *)
          (o : obs_class)                          (* observed *)
          (h_cred : option ucred) (h_ifaces : list bytes)  (* served: ucrednetGetWithInterfaces(r.RemoteAddr) inside the handler *)
 | CTable (n : nat)                                (* len(api) at run time *)
@@ -478,7 +511,7 @@ Definition list_bytes_eqb (a b : list bytes) : bool :=
 (* the model's answer differs from the observed one *)
 Definition mismatch (c : case) : bool :=
   match c with
-  | CServe idx path m x _ o h_cred h_ifaces =>
+  | CServe idx path m x _ _ o h_cred h_ifaces =>
     match nth_ep idx with
     | None => true
     | Some e =>
@@ -506,7 +539,7 @@ Definition mismatch (c : case) : bool :=
    driver forged and the boolean spec -- not the generated table, not the model's checkers, not the model's parser. *)
 Definition monitor_fail (c : case) : bool :=
   match c with
-  | CServe _ path m x creds o h_cred h_ifaces =>
+  | CServe _ path m x creds pre o h_cred h_ifaces =>
     match o with
     | OServed =>
       match policy_for path m with
@@ -514,7 +547,7 @@ Definition monitor_fail (c : case) : bool :=
       | Some p =>
         negb (allowed_b p x creds) ||                     (* served although the caller does not satisfy the level *)
         negb (opt_ucred_eqb h_cred creds) ||              (* the handler sees other credentials than the peer's *)
-        negb (forallb (fun i => connected_b x [i]) h_ifaces)   (* an attached interface is not actively connected *)
+        negb (forallb (fun i => mem i pre || connected_b x [i]) h_ifaces)   (* an attached interface is not actively connected *)
       end
     | OPanic => true
     | _ => false
@@ -522,10 +555,13 @@ Definition monitor_fail (c : case) : bool :=
   | CTable _ => false
   | CCred pid uid socket printed back back_ifaces =>
     (* round trip: a real peer (pid > 0 in int32, uid other than nobody, socket path without ;) reads back exactly;
-       anything else reads back as no credentials *)
-    let valid := (0 <? pid)%Z && (pid <? 2147483648)%Z && (uid <? 4294967295) && forallb not_semi socket in
-    if valid then negb (opt_ucred_eqb back (Some (mkUcred (Z.to_N pid) uid socket))) || negb (is_nil_b back_ifaces)
-    else match back with None => false | Some _ => true end
+       a pid or uid that is no real peer's reads back as no credentials (a socket path with ; is the listener's own
+       doing and outside the property: no claim) *)
+    let ids_ok := (0 <? pid)%Z && (pid <? 2147483648)%Z && (uid <? 4294967295) in
+    if negb ids_ok then match back with None => false | Some _ => true end
+    else if forallb not_semi socket
+         then negb (opt_ucred_eqb back (Some (mkUcred (Z.to_N pid) uid socket))) || negb (is_nil_b back_ifaces)
+         else false
   | CParse s back _ =>
     (* whatever is accepted carries a real pid and uid *)
     match back with
